@@ -19,7 +19,7 @@ RULE = ("alphabet {create a, create b, create p (an agent whose initialize() cre
         "sequences that contain at least one deletion/reconfiguration followed by a query on a non-empty population.")
 ASSUMPTIONS = ["agent_ids order is not judged (compared as multisets)", "models carry a DataCollector, as every scenario manager gives them"]
 REQUIRED = {"queries": 10000, "invariant_evaluations": 1000}
-BUDGET_S = {"quick": 100, "thorough": 1200}
+BUDGET_S = {"quick": 150, "thorough": 1200}
 
 OPS = ["create_a", "create_b", "create_a2", "del_oldest", "del_newest", "del_two", "del_unknown", "configure", "reset", "flip", "create_p", "del_all_a_alias", "create_fail", "configure_dict", "create_r",
        "create_t2", "soft_reset", "create_q", "configure_fail"]
